@@ -37,6 +37,7 @@ type Opts struct {
 	ContainerMembers bool // union members that are named slices / maps of unions, outside the analysed file (C02)
 	StdNamedPkgs     bool // an imported user package may be named like a standard one (time)
 	ForeignUnions    bool // the analysed package may use unions (and types holding unions) of imported packages (analysis-only properties)
+	RecursiveUnions  bool // a struct member of a union may hold a value of that union
 	SameNamePromoted bool // a flattened embedded struct may have a field with the Go name of an outer field, under another JSON key
 	EmbedNamed       bool // structs may embed an exported named non-struct type (a regular field for encoding/json)
 	ShortModule      bool // the analysed package may have an import path of one or two elements (module at the root)
@@ -459,6 +460,9 @@ func (g *gen) drawTag(name string, label string) string {
 		}
 		return `gomacro:"ignore"`
 	case 8:
+		if rapid.Bool().Draw(t, label+"OpaqueDart") {
+			return `gomacro-opaque:"dart"`
+		}
 		return `gomacro-opaque:"typescript"`
 	case 9:
 		if g.o.gated("json_string_option") {
@@ -612,7 +616,7 @@ func (g *gen) addStruct(pkg *Pkg, file *File, exported bool) *tinfo {
 			if g.o.DataIgnoreUnions && fti != nil && fti.cat == "union" && ft.K == TRef && rapid.IntRange(0, 2).Draw(t, "dataIgnoreUnion") == 0 {
 				f.Tag = `gomacro-data:"ignore"`
 			}
-			if (strings.Contains(f.Tag, `json:"-"`) || strings.Contains(f.Tag, `gomacro:"ignore"`)) && fti != nil && (fti.cat == "union" || fti.hasUnion) && g.o.gated("union_only_via_ignored_field") {
+			if (strings.Contains(f.Tag, `json:"-"`) || strings.Contains(f.Tag, `gomacro:"ignore"`) || strings.Contains(f.Tag, `gomacro-opaque:"dart"`)) && fti != nil && (fti.cat == "union" || fti.hasUnion) && g.o.gated("union_only_via_ignored_field") {
 				f.Tag = ""
 			}
 			if strings.Contains(f.Tag, "gomacro-data") && fti != nil && fti.cat == "union" && ft.K == TRef && g.o.DataIgnoreUnions {
